@@ -256,6 +256,61 @@ def kind_patterns(rank: int, rng):
         yield {"shape": shape, "comps": comps}
 
 
+def zip_patterns(rank: int, rng, reps: int = 1):
+    """Bounded-exhaustive over kind patterns with TWO OR MORE 1-D indices (NumPy broadcasts and zips them;
+    model: numpyIndexZ).  The lengths are chosen deliberately: equal, one of them 1 (stretched), empty, and
+    lengths that do not broadcast (NumPy raises); values valid on every axis so that the front ends run."""
+    shape = [2, 3, 4, 5][:rank]
+    length_plans = [("eq", [2, 2, 2, 2]), ("eq", [3, 3, 3, 3]), ("one", [1, 2, 1, 2]), ("one", [2, 1, 2, 1]),
+                    ("ones", [1, 1, 1, 1]), ("empty", [0, 0, 0, 0]), ("empty1", [0, 1, 0, 1]),
+                    ("mismatch", [2, 3, 2, 3]), ("mismatch", [3, 2, 1, 3]), ("mismatch0", [0, 2, 0, 2])]
+    for pat in itertools.product("TISFV", repeat=rank):
+        if pat.count("V") < 2:
+            continue
+        for _ in range(reps):
+            plan, lens = rng.choice(length_plans)
+            comps, nv = [], 0
+            for ax, k in enumerate(pat):
+                if k == "T":
+                    comps.append(f"T:{rng.choice([0, 1, -1, -2])}")
+                elif k == "I":
+                    comps.append(f"I:{rng.choice([0, 1, 1, -2])}")
+                elif k == "S":
+                    comps.append(rng.choice(["S:c1:_:_", "S:_:c-1:_", "S:_:_:c-1", "S:c0:c2:_", "S:_:_:c2"]))
+                elif k == "F":
+                    comps.append("F")
+                else:
+                    d = shape[ax]
+                    comps.append("V:" + ",".join(str(rng.randint(-d, d - 1)) for _ in range(lens[nv])))
+                    nv += 1
+            yield {"shape": shape, "comps": comps}
+
+
+def zip_plan(case: dict) -> str:
+    """Which broadcasting situation a case with two or more 1-D indices is in (evidence counters)."""
+    lens = [len([x for x in c[2:].split(",") if x]) for c in case["comps"] if c[0] == "V"]
+    non1 = sorted({n for n in lens if n != 1})
+    if len(non1) > 1:
+        return "mismatch"
+    if non1 == [0]:
+        return "empty"
+    if 1 in lens and non1:
+        return "stretched"
+    return "equal"
+
+
+def zip_front(case: dict) -> bool:
+    """Two or more 1-D indices whose broadcast axis NumPy moves to the front (advanced indices not adjacent,
+    a kept axis before the first 1-D index)."""
+    comps = case["comps"]
+    adv = [i for i, c in enumerate(comps) if c[0] in "ITVGM"]
+    vec = [i for i, c in enumerate(comps) if c[0] == "V"]
+    if len(vec) < 2:
+        return False
+    adjacent = len(adv) == adv[-1] - adv[0] + 1
+    return (not adjacent) and any(c[0] not in "ITVGM" for c in comps[: vec[0]])
+
+
 # --------------------------------------------------------------------------- known-finding predicates
 
 
@@ -343,12 +398,60 @@ def _session_options():
     return so
 
 
+def _slice_inputs(vals):
+    """starts/ends/axes/steps of an ONNX Slice as lists, with the operator's defaults for the optional
+    inputs that are absent (axes = 0..k-1, steps = 1): every legal way of writing the node reads as the
+    same plan entry list."""
+    vals = list(vals) + [None] * (4 - len(vals))
+    st = np.atleast_1d(np.asarray(vals[0])).tolist()
+    en = np.atleast_1d(np.asarray(vals[1])).tolist()
+    ax = np.atleast_1d(np.asarray(vals[2])).tolist() if vals[2] is not None else list(range(len(st)))
+    sp = np.atleast_1d(np.asarray(vals[3])).tolist() if vals[3] is not None else [1] * len(st)
+    return st, en, ax, sp
+
+
+def _read_node(n, env, feeds, plan, numpy_helper):
+    ins = list(n.input)
+    if n.op_type == "Constant":
+        a = n.attribute[0]
+        env[n.output[0]] = numpy_helper.to_array(a.t) if a.name == "value" else None
+    elif n.op_type == "Concat":
+        env[n.output[0]] = np.concatenate([np.atleast_1d(env[i]) for i in ins])
+    elif n.op_type == "Reshape":
+        env[n.output[0]] = np.reshape(env[ins[0]], env[ins[1]])
+    elif n.op_type == "Neg" and env.get(ins[0]) is not None and ins[0] not in feeds:
+        env[n.output[0]] = -np.asarray(env[ins[0]])  # `-K` on a named constant
+    elif n.op_type == "Identity":
+        plan.append("identity")
+    elif n.op_type == "Slice":
+        st, en, ax, sp = _slice_inputs([env.get(i) if i else None for i in ins[1:5]])
+        plan.append("slice(" + ";".join(f"{a}:{s}:{e}:{p}" for a, s, e, p in zip(ax, st, en, sp)) + ")")
+    elif n.op_type == "Squeeze":
+        if len(ins) < 2 or not ins[1]:
+            plan.append("squeeze[*]")  # no axes input: every axis of extent 1
+        else:
+            plan.append("squeeze[" + ",".join(map(str, np.atleast_1d(env[ins[1]]).tolist())) + "]")
+    elif n.op_type == "Gather":
+        axis = [a.i for a in n.attribute if a.name == "axis"]
+        axis = axis[0] if axis else 0
+        idx = np.asarray(env[ins[1]])
+        if idx.ndim == 0:
+            plan.append(f"gatherS({axis},{int(idx)})")
+        else:
+            plan.append(f"gatherV({axis},[{','.join(map(str, idx.tolist()))}])")
+    else:
+        plan.append(f"other:{n.op_type}")
+
+
 def graph_plan_and_result(fn, params, shape):
     """Read the plan the converter emitted (from the proto) and run it on onnxruntime."""
     import onnxruntime as ort
 
     ort.set_default_logger_severity(4)
-    model = fn.to_model_proto()
+    try:
+        model = fn.to_model_proto()
+    except Exception as e:  # the translated function cannot be turned into a model: a failure of the front end
+        return f"unbuildable:{type(e).__name__}", "ERR"
     feeds = {"A": data_for(shape)}
     for i, (kind, v) in enumerate(params):
         feeds[f"p{i}"] = np.array(v, dtype=np.int64)
@@ -357,33 +460,11 @@ def graph_plan_and_result(fn, params, shape):
     from onnx import numpy_helper
 
     for n in model.graph.node:
-        ins = list(n.input)
-        if n.op_type == "Constant":
-            a = n.attribute[0]
-            env[n.output[0]] = numpy_helper.to_array(a.t) if a.name == "value" else None
-        elif n.op_type == "Concat":
-            env[n.output[0]] = np.concatenate([np.atleast_1d(env[i]) for i in ins])
-        elif n.op_type == "Reshape":
-            env[n.output[0]] = np.reshape(env[ins[0]], env[ins[1]])
-        elif n.op_type == "Neg" and env.get(ins[0]) is not None and ins[0] not in feeds:
-            env[n.output[0]] = -np.asarray(env[ins[0]])  # `-K` on a named constant
-        elif n.op_type == "Identity":
-            plan.append("identity")
-        elif n.op_type == "Slice":
-            st, en, ax, sp = (np.atleast_1d(env[i]).tolist() for i in ins[1:5])
-            plan.append("slice(" + ";".join(f"{a}:{s}:{e}:{p}" for a, s, e, p in zip(ax, st, en, sp)) + ")")
-        elif n.op_type == "Squeeze":
-            plan.append("squeeze[" + ",".join(map(str, np.atleast_1d(env[ins[1]]).tolist())) + "]")
-        elif n.op_type == "Gather":
-            axis = [a.i for a in n.attribute if a.name == "axis"]
-            axis = axis[0] if axis else 0
-            idx = np.asarray(env[ins[1]])
-            if idx.ndim == 0:
-                plan.append(f"gatherS({axis},{int(idx)})")
-            else:
-                plan.append(f"gatherV({axis},[{','.join(map(str, idx.tolist()))}])")
-        else:
-            plan.append(f"other:{n.op_type}")
+        try:
+            _read_node(n, env, feeds, plan, numpy_helper)
+        except Exception as e:  # a node written in a form the reader does not know: the plan differs from the
+            # model's (tie broken, the result is still compared) — never an infrastructure error
+            plan.append(f"unreadable:{n.op_type}:{type(e).__name__}")
     try:
         sess = ort.InferenceSession(model.SerializeToString(), _session_options(), providers=["CPUExecutionProvider"])
         ro = ort.RunOptions()
@@ -445,7 +526,7 @@ def eager_plan_and_result(rec: _Recorder, case: dict):
         if name == "Identity":
             plan.append("identity")
         elif name == "Slice":
-            st, en, ax, sp = (np.atleast_1d(np.asarray(x)).tolist() for x in ins[1:5])
+            st, en, ax, sp = _slice_inputs(list(ins[1:5]))
             plan.append("slice(" + ";".join(f"{a}:{s}:{e}:{p}" for a, s, e, p in zip(ax, st, en, sp)) + ")")
         elif name == "Gather":
             idxv = np.asarray(ins[1])
@@ -523,7 +604,7 @@ def check_cases(run: core.Run, drv: core.Driver, cases, stats: Counter, do_graph
     problems = []
     lines = []
     for c in cases:
-        lines += [case_line("graph", c), case_line("eager", c), case_line("numpy", c)]
+        lines += [case_line("graph", c), case_line("eager", c), case_line("numpy", c), case_line("numpyz", c)]
     outs = drv.ask(lines)
     rec = _Recorder() if do_eager else None
     fn = err = metas = None
@@ -531,7 +612,16 @@ def check_cases(run: core.Run, drv: core.Driver, cases, stats: Counter, do_graph
     if do_graph:
         fn, err, metas, modname = compile_cases(cases)
     for i, c in enumerate(cases):
-        m_graph, m_eager, m_numpy = outs[3 * i], outs[3 * i + 1], outs[3 * i + 2]
+        m_graph, m_eager, m_numpy, m_numpyz = outs[4 * i], outs[4 * i + 1], outs[4 * i + 2], outs[4 * i + 3]
+        zipped = m_numpy.startswith("zip ")  # two or more 1-D indices: NumPy zips them (model: numpyIndexZ)
+        if zipped:
+            m_numpy = m_numpy[4:]
+            stats["zip_cases"] += 1
+            stats["zip_" + zip_plan(c)] += 1
+            if zip_front(c):
+                stats["zip_front_axis"] += 1
+        if zipped != (sum(1 for ck in c["comps"] if ck[0] == "V") >= 2):
+            problems.append((c, "numpy", "tie", f"driver used the zip model: {zipped}; 1-D indices in the case: {c['comps']}"))
         moved = m_numpy.startswith("front=")  # NumPy puts the broadcast axis first (model: numpyIndexT)
         if moved:
             m_numpy = m_numpy.split(" ", 1)[1]
@@ -540,6 +630,12 @@ def check_cases(run: core.Run, drv: core.Driver, cases, stats: Counter, do_graph
             problems.append((c, "numpy", "tie", f"model frontOf says moved={moved}, harness predicate {needs_transpose(c)}"))
         np_res = numpy_result(c)
         stats["cases"] += 1
+        # the zip model of NumPy (numpyIndexZ) is run on EVERY case: below two 1-D indices it must give what
+        # numpyIndexT gives (theorem numpyIndexZ_of_numpyIndexT speaks about the views; this also ties the
+        # output shape and element order), and real NumPy's result
+        if norm_err(m_numpyz) != np_res:
+            problems.append((c, "numpy", "tie", f"model numpyIndexZ={m_numpyz} real numpy={np_res}"))
+        stats["numpyz_vs_numpy"] += 1
         # the model's NumPy must be NumPy (validates the spec side of the theorems)
         if m_numpy != "ERR:unmodelled":
             if norm_err(m_numpy) != np_res:
@@ -586,10 +682,23 @@ def check_cases(run: core.Run, drv: core.Driver, cases, stats: Counter, do_graph
             # ---- property: a front end that returns a tensor returns NumPy's tensor
             # and a front end never returns a tensor for an expression NumPy rejects
             if m_numpy == "ERR:unmodelled":
-                # two or more 1-D indices (NumPy zips/broadcasts them, or raises when they do not
-                # broadcast): outside the documented forms ("i is a tensor holding one integer") and
-                # outside the model; counted, not judged
+                # (cannot happen any more: two or more 1-D indices are modelled by numpyIndexZ)
                 stats[f"{mode}_outside_documented_forms"] += 1
+            elif zipped:
+                # Two or more 1-D indices: NumPy broadcasts and zips them (or raises when they do not
+                # broadcast); the front ends run one Gather per index = the outer product.  Finding C11-N4
+                # is exactly that: the implementation returns the model's outer-product view.  Anything
+                # else (another tensor, a tensor the model does not predict) is not that finding.
+                stats[f"{mode}_zip_judged"] += 1
+                if not ires.startswith("ERR"):
+                    if np_res == "ERR":
+                        stats[f"{mode}_zip_tensor_where_numpy_raises"] += 1
+                    if ires != np_res:
+                        kind_ = "property_n4" if norm_err(mres) == ires else "property"
+                        problems.append((c, mode, kind_, f"{mode} returned {ires} ; numpy "
+                                         + ("raises" if np_res == "ERR" else np_res)))
+                    else:
+                        stats[f"{mode}_zip_equal_numpy"] += 1
             elif np_res == "ERR":
                 # NumPy raises: the front end must refuse or fail too — a tensor here is a tensor that
                 # differs from (the absence of) NumPy's result
@@ -615,9 +724,9 @@ def main(run: core.Run) -> None:
         "onnxruntime CPU is the runtime the results are observed on",
         "NumPy basic indexing = CPython PySlice_AdjustIndices (transcribed); validated against real NumPy on every case",
         "tensor-valued indices: rank-0 and at most one 1-D index per expression are judged, NumPy's move of the "
-        "broadcast axis to the front (X[0, :, I]) included (model: numpyIndexT; finding C11-N3); multi-vector (zip) "
-        "indexing is outside the model: such cases are generated (few), tied to the model, counted in the evidence "
-        "(`unmodelled_*`) and not judged against NumPy",
+        "broadcast axis to the front (X[0, :, I]) included (model: numpyIndexT; finding C11-N3); two or more 1-D "
+        "indices: NumPy's broadcast-and-zip is modelled by numpyIndexZ (validated against real NumPy on every "
+        "such case) and judged — the front ends take the outer product instead (finding C11-N4)",
     ]
     audit = run.prove(PROP_MODULES)
     drv = core.Driver("C11")
@@ -690,6 +799,11 @@ def main(run: core.Run) -> None:
     pats = list(kind_patterns(3, run.rng)) + list(kind_patterns(4, run.rng))
     batch(pats)
     stats["kind_patterns"] = len(pats)
+    # two or more 1-D indices: every kind pattern of rank 2..4 with >= 2 of them (127 patterns), lengths
+    # equal / stretched / empty / not broadcastable chosen deliberately
+    zpats = [c for r_ in (2, 3, 4) for c in zip_patterns(r_, run.rng, reps=run.size(2, 6))]
+    batch(zpats)
+    stats["zip_patterns"] = len(zpats)
     mixed_ranks = (3,) if run.tier == "quick" else (3, 3, 4, 2)
     batch([gen_mixed(run.rng, mixed_ranks) for _ in range(run.size(800, 4000))])
     batch([gen_mixed(run.rng, mixed_ranks) for _ in range(run.size(2000, 8000))], do_graph=False)
@@ -728,16 +842,19 @@ def main(run: core.Run) -> None:
         if kind == "tie":
             tie_broken.append((c, mode, detail))
         else:
-            fid = "C11-N3" if kind == "property_n3" else classify(c, mode)
+            fid = "C11-N3" if kind == "property_n3" else "C11-N4" if kind == "property_n4" else classify(c, mode)
             if fid and fid in findings:
                 known_counts[fid] += 1
                 if known_counts[fid] == 1:
-                    run.known(fid, f"{mode} A[{', '.join(comp_src(x, []) for x in c['comps'])}] shape={c['shape']}: {detail}")
+                    ps_: list = []
+                    run.known(fid, f"{mode} A[{', '.join(comp_src(x, ps_) for x in c['comps'])}] shape={c['shape']}"
+                              + (f" with {', '.join(f'p{j}={v}' for j, (_, v) in enumerate(ps_))}" if ps_ else "") + f": {detail}")
             else:
                 prop_failures.append((c, mode, detail))
     stats["known_D22"] = known_counts["D22"]
     stats["known_C11-N1"] = known_counts["C11-N1"]
     stats["known_C11-N3"] = known_counts["C11-N3"]
+    stats["known_C11-N4"] = known_counts["C11-N4"]
 
     if family_failures:
         case_, mode_, detail_ = family_failures[0]
@@ -784,8 +901,10 @@ def main(run: core.Run) -> None:
         + ("completely" if run.tier == "thorough" else "completely for eager mode, by sample (1000) for the converter")
         + "; all kind patterns {rank-0 tensor, int, slice, ':', "
         "1-D tensor (at most one)}^rank, rank 3 and 4, on a 2x3x4(x5) tensor are enumerated "
-        "completely (values sampled); other higher-rank cases are seeded random",
+        "completely (values sampled); all kind patterns of rank 2..4 with two or more 1-D tensors likewise "
+        "(lengths equal / 1 / 0 / not broadcastable sampled); other higher-rank cases are seeded random",
         unmodelled_not_judged={"two_or_more_1d_indices": stats["unmodelled_two_or_more_1d_indices"]},
+        zip_model={k: v for k, v in sorted(stats.items()) if "zip" in k},
         numpy_front_axis_cases=stats["numpy_front_axis_cases"],
         former_d7_family={
             "graph_cases": stats["graph_axis_shift_shape"],
@@ -798,5 +917,12 @@ def main(run: core.Run) -> None:
     run.coverage["plan_shapes"] = {k[6:]: v for k, v in sorted(stats.items()) if k.startswith("shape_")}
     if missing:
         raise core.Infra("generator never reached these plan shapes of the modelled code: " + ", ".join(missing))
+    zmissing = [k for k in ("zip_equal", "zip_stretched", "zip_empty", "zip_mismatch", "zip_front_axis",
+                            "graph_zip_judged", "eager_zip_judged", "graph_zip_tensor_where_numpy_raises",
+                            "eager_zip_tensor_where_numpy_raises") if stats[k] == 0]
+    if zmissing:
+        raise core.Infra("generator never reached these situations of two or more 1-D indices: " + ", ".join(zmissing))
+    if stats["numpy_unmodelled"]:
+        raise core.Infra("the NumPy model answered `unmodelled` (every index form is modelled now)")
     if stats["graph_cases"] and stats["graph_refused"] > 0.3 * stats["graph_cases"]:
         raise core.Infra("generator degenerated: >30% of programs refused")
